@@ -1,24 +1,43 @@
-// c03w: scratch driver for the reclaim regression stream (see reclaim_stream.go, which is
-// moved to harness/cmd/c03 once that package is final).
+// c03w: scratch driver of the two C03 regression streams (moved into harness/cmd/c03).
 package main
 
 import (
 	"fmt"
-	"os"
+
+	"verif/harness/internal/vh"
 )
 
 func main() {
-	in := []int64{10, 6, 4, 2, 10, 8, 5, 0}
-	got := runReclaimCase(in)
-	fmt.Println("in:", in, "observed:", got)
-	// got = [preemptive, allocatable, placed, evictions, n, (alloc, realcap)*]
-	if got[2] == 1 {
-		for i := 0; i < int(got[4]); i++ {
-			if got[5+2*i] > got[6+2*i] {
-				fmt.Println("WITNESS: a queue of the chain holds more than its realCapability after a reclaim placement")
-				os.Exit(1)
+	rng := vh.NewRng(1)
+	bad, flips := 0, 0
+	var first []int64
+	for i := 0; i < 300; i++ {
+		in := genAliasCase(rng.Fork())
+		got := runAliasCase(in)
+		if got[0] != got[2] || got[3] != 1 {
+			bad++
+			if got[0] == 0 && got[2] == 1 {
+				flips++
+			}
+			if first == nil {
+				first = append(append([]int64{}, in...), got...)
 			}
 		}
 	}
-	fmt.Println("no violation")
+	fmt.Println("alias: cases 300 violations", bad, "of which refusal turned into acceptance", flips, "first", first)
+	placed, viol := 0, 0
+	for i := 0; i < 300; i++ {
+		in := genReclaimCase(rng.Fork())
+		got := runReclaimCase(in)
+		if got[2] == 1 {
+			placed++
+			for k := 0; k < int(got[4]); k++ {
+				if got[6+3*k] > got[7+3*k] {
+					viol++
+					break
+				}
+			}
+		}
+	}
+	fmt.Println("reclaim: cases 300 placed", placed, "violations", viol)
 }
